@@ -107,12 +107,30 @@ def exceeds(a, b, lim) -> bool:
     return Fraction(a, b) > r[1]
 
 
+def rl_exact(S: int, v) -> bool:
+    """mirror of Model.rl_exact: finite, >= 1, and S * 2^max(-e,0) < 2^53 (v = m * 2^e)."""
+    r = rl_value(v)
+    if not isinstance(r, tuple) or r[1] < 1:
+        return False
+    den = r[1].denominator          # a power of two for floats, 1 for ints
+    return S * den < TWO53
+
+
+def rl_repr(v) -> bool:
+    """mirror of Model.rl_repr on the (m, e) the G-dump prints: m < 2^53 and e >= -1074; non-finite: True."""
+    r = rl_value(v)
+    if not isinstance(r, tuple):
+        return True
+    if isinstance(v, float):
+        n, d = v.as_integer_ratio()
+        return n < TWO53 and -(d.bit_length() - 1) >= -1074
+    return int(v) < TWO53
+
+
 def limits_exact(L) -> bool:
-    def int_ge1(v):
-        r = rl_value(v)
-        return isinstance(r, tuple) and r[1].denominator == 1 and r[1] >= 1
-    return (0 <= L.max_total_uncompressed_bytes < TWO53 and 0 <= L.max_single_uncompressed_bytes < TWO53
-            and int_ge1(L.max_total_compression_ratio) and int_ge1(L.max_entry_compression_ratio))
+    return (0 <= L.max_total_uncompressed_bytes and 0 <= L.max_single_uncompressed_bytes
+            and rl_exact(L.max_total_uncompressed_bytes, L.max_total_compression_ratio)
+            and rl_exact(L.max_single_uncompressed_bytes, L.max_entry_compression_ratio))
 
 
 def bomb_clauses(L, es) -> list[str]:
@@ -202,6 +220,9 @@ def limit_sets(zb):
         ("big", Z(50_000, 2 ** 52, 2 ** 52, 200.0, 500.0)),
         ("edge53", Z(10, TWO53 - 1, TWO53 - 1, 3.0, 3.0)),
         ("frac", Z(10, 10 ** 6, 10 ** 5, 2.5, 7.25)),
+        ("frac500", Z(50_000, 2 ** 32, 2 ** 30, 200.5, 500.5)),
+        ("frac-edge", Z(10, 2 ** 50 - 1, 2 ** 50 - 1, 1.125, 3.875)),
+        ("frac-over", Z(10, 2 ** 52, 2 ** 52, 2.5, 7.25)),
         ("tiny-ratio", Z(10, 10 ** 6, 10 ** 5, 0.5, 0.125)),
         ("zero-ratio", Z(10, 10 ** 4, 10 ** 4, 0.0, 0.0)),
         ("neg", Z(10, 10 ** 4, 10 ** 4, -1.0, -2.0)),
@@ -727,13 +748,29 @@ def inventory(ctx):
                         if isinstance(n, ast.ImportFrom) and n.module and n.module.endswith("xlsx_extractor") and any(
                                 a.name == fn.name for a in n.names):
                             ext_refs += 1
-            if refs == 0 and ext_refs == 0:
-                dead.append(f"{rel}:{fn.name}")
-            else:
-                problems.append(f"{rel}:{fn.name} opens the workbook without validate_zip_bytesio on the same bytes first")
+            # unguarded helper: tolerated only while nothing refers to it (checked by the next obligation)
+            dead.append(f"{rel}:{fn.name}")
     ctx.obligation("inventory:load_workbook( only after validate_zip_bytesio on the same io.BytesIO(raw) expression",
                    not problems, "; ".join(problems))
     ctx.extra["unreferenced_unvalidated_load_workbook_helpers"] = dead
+    # the unvalidated helpers must stay without any call site / reference anywhere in the package
+    wired = []
+    for d in dead:
+        rel, fname = d.split(":")
+        modname = Path(rel).stem
+        for rel2, t2 in trees.items():
+            for n in ast.walk(t2):
+                if rel2 == rel:
+                    hit = (isinstance(n, ast.Name) and n.id == fname) or (isinstance(n, ast.Attribute) and n.attr == fname) \
+                        or (isinstance(n, ast.Constant) and n.value == fname)
+                else:
+                    hit = (isinstance(n, ast.ImportFrom) and n.module and n.module.endswith(modname)
+                           and any(a.name in (fname, "*") for a in n.names)) \
+                        or (isinstance(n, ast.Attribute) and n.attr == fname and modname in ast.unparse(n.value))
+                if hit:
+                    wired.append(f"{rel2}:{getattr(n, 'lineno', '?')} refers to {modname}.{fname}")
+    ctx.obligation("inventory:unvalidated load_workbook helpers (xlsx_extractor._read_metadata/_read_content) have no call site",
+                   not wired, "; ".join(wired) + f" (helpers: {dead})")
 
 
 # ============================================================================ the check
@@ -762,7 +799,7 @@ def run(ctx):
     from sharepoint2text.parsing.exceptions import ExtractionZipBombError
 
     ctx.rule = ("synthetic ZipInfo vectors on the boundary lattice (single size, entry ratio, zero-compressed, total, "
-                "total ratio, entry count: each -1/0/+1 and absent, combined; directories interleaved) x 16 limit "
+                "total ratio, entry count: each -1/0/+1 and absent, combined; directories interleaved) x 19 limit "
                 "settings; real ZIPs with forged central directories through validate_zip_bytesio/open_zipfile/"
                 "ZipContext and all 9 ZIP-container extractors; non-trivial = vector within +-1 of at least one threshold")
     ctx.trusted += [
@@ -775,7 +812,8 @@ def run(ctx):
         "openpyxl reads the same bytes that were validated: X-fact (both arguments are the expression io.BytesIO(raw))",
     ]
     ctx.assumptions += ["entry sizes are non-negative (zipfile unpacks them as unsigned)",
-                        "limits within limits_exact for the exact-decision theorem (defaults are: Inst.v)"]
+                        "limits within limits_exact (ratio limits m*2^e >= 1 with byte limit * 2^max(-e,0) < 2^53) for the two-sided "
+                        "theorem (defaults are: Inst.v); one-sided soundness needs only binary64 ratio limits"]
     gen_limits(ctx, zb)
     import time as _time
     _t = [_time.time()]
@@ -788,7 +826,7 @@ def run(ctx):
 
     # ------------------------------------------------------------------ proofs
     ctx.prove("C11/Props.v", ["C11/Proofs.vo"], expected=[
-        "C11_rejects_iff", "C11_accepts_iff", "C11_never_overflows", "C11_ratio_exact", "C11_dirs_ignored",
+        "C11_rejects_iff", "C11_accepts_iff", "C11_never_overflows", "C11_ratio_exact", "C11_float_gt_sound", "C11_reject_sound_all_limits", "C11_dirs_ignored",
         "C11_count_counts_dirs", "C11_position_preserved", "C11_validate_dominates_reads",
         "C11_read_implies_accepted", "C11_trace_ok_sound", "C11_rejects_iff_unrestricted_refuted",
         "C11_overflow_unrestricted_refuted"])
@@ -836,6 +874,11 @@ def run(ctx):
                         f"validate_zipfile {'rejects' if got else 'accepts'} but the exact predicate says "
                         f"{clauses or 'no clause holds'} (limits {name}: {L}, entries {flat[:8]})",
                         {"limits": repr(L), "entries": flat[:200], "clauses": clauses, "got": got})
+        elif (got == 1 and not clauses and rl_repr(L.max_total_compression_ratio) and rl_repr(L.max_entry_compression_ratio)
+              and all(fs >= 0 and cs >= 0 for fs, cs, d in flat if not d)):
+            ctx.finding(f"validate-rejects-nonbomb:{name}",
+                        f"validate_zipfile rejects although no clause of the exact predicate holds (limits {name}: {L}, "
+                        f"entries {flat[:8]})", {"limits": repr(L), "entries": flat[:200], "got": got})
         elif not exact and got == 0 and clauses and name in ("wide", "float-rounding-witness", "float-rounding-40") and all(fs >= 0 and cs >= 0 for fs, cs, d in flat):
             only_ratio = set(clauses) <= {"entry-ratio", "total-ratio"}
             ctx.finding("float-ratio-rounding-above-2^53" if only_ratio else f"validate-decision-wide:{'+'.join(clauses)}",
@@ -1088,8 +1131,9 @@ META = {
     "design_ref": "DESIGN.md §5 C11",
     "level_text": "Kernel-checked: validate rejects iff the declarative six-clause Bomb disjunction (strict >, exact rational "
                   "ratios, directories ignored except in the count) and accepts otherwise, for all entry lists with non-negative "
-                  "sizes and all limits with byte limits < 2^53 and integer ratio limits >= 1 (the defaults, re-decided each run); "
-                  "float comparison == exact comparison in that range; stream position preserved; every ZipContext trace has "
+                  "sizes and all limits with dyadic ratio limits >= 1 and byte limit * 2^max(-e,0) < 2^53 (the defaults, re-decided "
+                  "each run; 500.5 is covered); float comparison == exact comparison in that range; for ALL byte limits and sizes the "
+                  "guard never rejects what the exact predicate accepts (one-sided, binary64 ratio limits); stream position preserved; every ZipContext trace has "
                   "validate before each read; refutations outside that range. Validated only: model == code (differential), "
                   "extractor call order (runtime monitor + ast inventory), zipfile's central-directory parsing.",
     "level_note": "Trusted: Coq kernel+VM; hand-written model incl. the int/int rounding algorithm (tested against CPython and "
